@@ -499,9 +499,22 @@ pub fn model(ver: u8, kk: KK, b: &[u8]) -> Verdict {
                 }
             })
             .unwrap_or(None);
+            // DER input must be the canonical encoding (one key, one PASERK string); PEM is the documented other form
+            let noncanonical_der = subject(|| match kk {
+                KK::Public | KK::PkePublic => {
+                    use rsa::pkcs8::{DecodePublicKey, EncodePublicKey};
+                    rsa::RsaPublicKey::from_public_key_der(b).ok().map(|k| k.to_public_key_der().map(|d| d.as_bytes() != b).unwrap_or(true)).unwrap_or(false)
+                }
+                _ => {
+                    use rsa::pkcs1::{DecodeRsaPrivateKey, EncodeRsaPrivateKey};
+                    rsa::RsaPrivateKey::from_pkcs1_der(b).ok().map(|k| k.to_pkcs1_der().map(|d| d.as_bytes() != b).unwrap_or(true)).unwrap_or(false)
+                }
+            })
+            .unwrap_or(false);
             match bits {
                 None => Verdict::Reject,
                 Some(x) if x != want_bits => Verdict::Reject,
+                Some(_) if noncanonical_der => Verdict::Reject,
                 Some(_) => Verdict::Either,
             }
         }
@@ -666,6 +679,17 @@ pub fn key_candidates(ver: u8, thorough: bool) -> Vec<(String, Vec<u8>)> {
             c.push(("secret: seed with another key's public half".into(), swapped));
         }
         _ => {
+            // valid keys whose DER is not the canonical encoding: the CRT coefficient (last integer of the PKCS#1
+            // structure, ignored by the rsa crate) with its last bit flipped; 2048- and 4096-bit keys
+            for (l, pem) in [("rsa2048_b", include_str!("../data/rsa2048_b.pem")), ("rsa4096_b", include_str!("../data/rsa4096_b.pem"))] {
+                use rsa::pkcs1::{DecodeRsaPrivateKey, EncodeRsaPrivateKey};
+                if let Ok(k) = rsa::RsaPrivateKey::from_pkcs1_pem(pem) {
+                    let mut der = k.to_pkcs1_der().unwrap().as_bytes().to_vec();
+                    let n = der.len();
+                    der[n - 1] ^= 1;
+                    c.push((format!("valid key {l}, DER with a different CRT coefficient (non-canonical)"), der));
+                }
+            }
             // structurally odd RSA keys (harness/data, generated once with openssl + a DER writer): DER and PEM forms
             c.push(("crafted RSA private key p == q (DER)".into(), include_bytes!("../data/rsa2048_p_eq_q.der").to_vec()));
             c.push(("crafted RSA private key p == q (PEM)".into(), include_bytes!("../data/rsa2048_p_eq_q.pem").to_vec()));
